@@ -119,6 +119,16 @@ def check(run, replay=None):
                         j = wn.get_node(rng.choice(jn))
                         j.add_leak(wn, area=0.01, discharge_coeff=0.75, start_time=0, end_time=None)
                         j.remove_leak(wn)
+                # attributes assigned after creation (from_dict re-creates elements through add_*, which must not re-derive them)
+                S_ = wntr.network.LinkStatus
+                for ln_, l_ in wn.links():
+                    if rng.random() < 0.35:
+                        if l_.link_type == "Valve":
+                            l_.initial_status = rng.choice([S_.Open, S_.Closed, S_.Active])
+                            l_.initial_setting = round(rng.uniform(1, 40), 2)
+                        else:
+                            l_.initial_status = rng.choice([S_.Open, S_.Closed])      # check-valve pipes included
+                        run.count("initial_status assigned after creation")
                 if rng.random() < 0.5:
                     wn.add_junction("JEMPTY", base_demand=0.0, elevation=2.0, coordinates=(1, 1))
                     wn.get_node("JEMPTY").demand_timeseries_list.clear()
